@@ -60,6 +60,7 @@ where
 }
 
 pub fn g6_case(out: &mut Out, ag: &AG, rng: &mut Rng) {
+    out.log.about_to(&json!({"prop": "C18", "kind": "g6", "n": ag.n, "dir": false, "E": ag.edges_json()}));
     assert!(!ag.directed && ag.is_simple() && !ag.has_loop());
     let n = ag.n;
     let has = |i: usize, j: usize| ag.edges.iter().any(|e| (e.0 == i && e.1 == j) || (e.0 == j && e.1 == i));
@@ -169,6 +170,7 @@ where
 }
 
 pub fn dot_case(out: &mut Out, ag: &AG, rng: &mut Rng) {
+    out.log.about_to(&json!({"prop": "C18", "kind": "dot", "n": ag.n, "dir": ag.directed, "E": ag.edges_json()}));
     let nw: Vec<String> = (0..ag.n).map(|_| adversarial(rng)).collect();
     let ew: Vec<String> = ag.edges.iter().map(|_| adversarial(rng)).collect();
     macro_rules! build { ($G:ident, $Ty:ty) => {{
